@@ -356,69 +356,57 @@ class LexAnalysis:
         behs = [(r, rule_behaviour(bc, r, self.effects)) for r in bc.rules]
         pops = [r for r, b in behs if b["kind"] == "pop" and not b.get("emits")]
         stays = [r for r, b in behs if b["kind"] == "ignore"]
-        # (B) first line contains "*/": one step consumes up to and including the FIRST "*/" and pops
-        first = z3.Concat(z3.Intersect(no_close, z3.Star(notnl)), close)
-        # careful: "no_close . */" may itself contain an earlier "*/" only if it overlaps; exclude by requiring
-        # the whole consumed lexeme to contain "*/" only at its end
-        lex_ok = z3.Intersect(z3.Concat(z3.Star(notnl), close),
+        # One step from ANY position inside a comment, whatever the rule set of the state looks like (one lazy rule per
+        # line, character-level rules, ...).  With c = the first "*/" of the remaining text:
+        #   P1  some rule matches every non-empty remainder (progress);
+        #   P2  a rule that pops does so exactly at c: its lexeme ends with "*/" and contains no other "*/";
+        #   P3  a rule that stays consumes a non-empty chunk without "*/" that does not split one ("*" | "/"), so c is kept;
+        #   P4  nothing else happens in the state (no token, no push, no error).
+        # P1-P4 give by induction: the state is left exactly after c, and never if there is no "*/" (the end-of-text
+        # check is PS-GLUE's business).  When the remainder starts with "*/", P3 forbids every staying rule, so P1 and P4
+        # leave only the pop.
+        lex_ok = z3.Intersect(z3.Concat(z3.Star(anyc), close),
                               z3.Complement(z3.Concat(z3.Star(anyc), close, z3.Plus(anyc))))
-        want_b = z3.Concat(lex_ok, mk, z3.Star(anyc))
-        pop_fires = union(model.fires_re(bc, r) for r in pops)
-        hyp_b = z3.Intersect(want_b)     # y = s MARK r with s = shortest prefix ending in the first */ on the first line
-        w = query(self.tally, z3.Intersect(hyp_b, z3.Complement(pop_fires)),
-                  "LX-TRIVIA(block) B: the comment does not end at the FIRST '*/' of the line", sample=True)
-        if w is not None:
-            self.add("LX-TRIVIA", "BLOCK_COMMENT_END", w, "inside a comment, %r should close it but the step does not pop there" % w[0])
-        else:
-            self.discharged.append("LX-TRIVIA(block) B")
-        for r in pops:
-            w = query(self.tally, z3.Intersect(model.fires_re(bc, r), z3.Complement(want_b)),
-                      "LX-ONLY(block) B: comment state popped at something other than the first '*/'", sample=True)
-            if w is not None:
-                self.add("LX-TRIVIA", "BLOCK_COMMENT_END", w, "the comment is closed after consuming %r (not the first '*/')" % w[0])
-            else:
-                self.discharged.append("LX-ONLY(block) B %s" % r.name)
-        # (A) first line has no "*/" and text non-empty: one step consumes a non-empty chunk without "*/",
-        #     not splitting a "*/", stays in the comment state
-        hyp_a = z3.Intersect(z3.Plus(anyc), z3.Complement(first_line_has_close))
-        w = query(self.tally, z3.Intersect(hyp_a, model.norule_re(bc)), "LX-TRIVIA(block) A: no rule matches inside a comment")
+        want_pop = z3.Concat(lex_ok, mk, z3.Star(anyc))
+        w = query(self.tally, z3.Intersect(z3.Plus(anyc), model.norule_re(bc)), "LX-TRIVIA(block) P1: no rule matches inside a comment")
         if w is not None:
             self.add("LX-TRIVIA", "BLOCK_COMMENT", w, "inside a comment no rule matches %r" % (w[0] + w[1])[:20])
         else:
-            self.discharged.append("LX-TRIVIA(block) A progress")
-        hyp_a_y = z3.Intersect(z3.Concat(z3.Star(anyc), mk, z3.Star(anyc)),
-                               z3.Complement(z3.Union(z3.Concat(z3.Star(notnl), close, z3.Star(anyc), mk, z3.Star(anyc)),  # close before marker on line 1
-                                                      z3.Concat(z3.Star(notnl), z3.Re(z3.StringVal("*")), mk, z3.Re(z3.StringVal("/")), z3.Star(anyc)),
-                                                      z3.Concat(z3.Star(notnl), mk, z3.Star(notnl), close, z3.Star(anyc)))))
+            self.discharged.append("LX-TRIVIA(block) P1 progress")
+        # at the first close itself the step must pop (follows from P1, P3, P4; asked directly as a cross-check)
+        pop_fires = union(model.fires_re(bc, r) for r in pops)
+        at_close = z3.Concat(close, mk, z3.Star(anyc))
+        some_pop_reaches = z3.Concat(lex_ok, mk, z3.Star(anyc))
+        w = query(self.tally, z3.Intersect(at_close, z3.Complement(pop_fires)),
+                  "LX-TRIVIA(block) P2': at a '*/' the comment state is not left", sample=True)
+        if w is not None:
+            self.add("LX-TRIVIA", "BLOCK_COMMENT_END", w, "inside a comment, %r should close it but the step does not pop there" % w[0])
+        else:
+            self.discharged.append("LX-TRIVIA(block) close at '*/'")
         good_chunk = z3.Concat(z3.Intersect(z3.Plus(anyc), no_close), mk, z3.Star(anyc))
         split_bad = z3.Concat(z3.Star(anyc), z3.Re(z3.StringVal("*")), mk, z3.Re(z3.StringVal("/")), z3.Star(anyc))
         for r, b in behs:
             f = model.fires_re(bc, r)
-            if b["kind"] == "ignore":
-                reg = z3.Intersect(f, hyp_a_y, z3.Union(z3.Complement(good_chunk), split_bad))
-                lab = "LX-TRIVIA(block) A: %s consumes a chunk containing or splitting '*/'" % r.name
+            if b["kind"] == "pop" and not b.get("emits"):
+                w = query(self.tally, z3.Intersect(f, z3.Complement(want_pop)),
+                          "LX-TRIVIA(block) P2: %s leaves the comment state somewhere else than at the first '*/'" % r.name, sample=True)
+                if w is not None:
+                    self.add("LX-TRIVIA", "BLOCK_COMMENT_END", w, "the comment is closed after consuming %r (not the first '*/')" % w[0])
+                else:
+                    self.discharged.append("LX-TRIVIA(block) P2 %s" % r.name)
+            elif b["kind"] == "ignore":
+                w = query(self.tally, z3.Intersect(f, z3.Union(z3.Complement(good_chunk), split_bad)),
+                          "LX-TRIVIA(block) P3: %s consumes a chunk containing or splitting '*/'" % r.name)
+                if w is not None:
+                    self.add("LX-TRIVIA", "BLOCK_COMMENT_END", w, "rule %s swallows %r inside a comment" % (r.name, w[0]))
+                else:
+                    self.discharged.append("LX-TRIVIA(block) P3 %s" % r.name)
             else:
-                reg = z3.Intersect(f, hyp_a_y)
-                lab = "LX-TRIVIA(block) A: %s (%s) fires although the line has no '*/'" % (r.name, b["kind"])
-            w = query(self.tally, reg, lab)
-            if w is not None:
-                self.add("LX-TRIVIA", "BLOCK_COMMENT", w, "inside a comment rule %s consumes %r" % (r.name, w[0]))
-            else:
-                self.discharged.append("LX-TRIVIA(block) A %s" % r.name)
-        # when the first line HAS a close, only the pop rule may fire (no chunk rule may swallow it)
-        for r, b in behs:
-            if b["kind"] == "pop":
-                continue
-            hyp = z3.Concat(z3.Star(notnl), close, z3.Star(anyc))
-            w = query(self.tally, z3.Intersect(model.fires_re(bc, r),
-                                               z3.Union(z3.Concat(z3.Star(notnl), close, z3.Star(anyc), mk, z3.Star(anyc)),
-                                                        z3.Concat(z3.Star(notnl), mk, z3.Star(notnl), close, z3.Star(anyc)),
-                                                        split_bad)),
-                      "LX-TRIVIA(block) B: %s consumes or passes a '*/' on the current line without closing" % r.name)
-            if w is not None:
-                self.add("LX-TRIVIA", "BLOCK_COMMENT_END", w, "rule %s swallows %r inside a comment" % (r.name, w[0]))
-            else:
-                self.discharged.append("LX-TRIVIA(block) B exclusivity %s" % r.name)
+                w = query(self.tally, f, "LX-TRIVIA(block) P4: %s (%s) can fire inside a comment" % (r.name, b["kind"]))
+                if w is not None:
+                    self.add("LX-TRIVIA", "BLOCK_COMMENT", w, "inside a comment rule %s (%s) fires on %r" % (r.name, b["kind"], w[0]))
+                else:
+                    self.discharged.append("LX-TRIVIA(block) P4 %s unreachable" % r.name)
 
     def values(self):
         """token values: INT = decimal value (int), FLOAT = float(text), STRING = text between the quotes, ID = text"""
